@@ -26,7 +26,7 @@ func init() {
 		Shards: func(tier string) int { return map[string]int{"quick": 8, "thorough": 16}[tier] },
 		Run: func(c *Ctx) {
 			c.P.Rule = "random spec x random layout"
-			c.Rapid("layout", c.Pick(2500, 60000), func(t *rapid.T) {
+			c.Rapid("layout", c.Pick(10000, 100000), func(t *rapid.T) {
 				cs := drawC10(t)
 				if msg := evalC10(c, cs); msg != "" {
 					c.Fail(cs, msg)
